@@ -18,7 +18,9 @@ CONSTANTS MaxHist,      \* maximal number of calls before the observed call
           Seeds,        \* positive seeds (arguments of observed / history calls)
           NonPos,       \* non-positive seeds (must be ignored)
           Sims,         \* simulators present in the histories / observed (subset of DOMAIN Profile)
-          BareUnseeded  \* TRUE: simulators WITHOUT seed argument are observed bare (no reseed before)
+          BareUnseeded, \* TRUE: simulators WITHOUT seed argument are observed bare (no reseed before)
+          Styles,       \* generator styles explored: subset of {"old", "new"}
+          MaxHistNew    \* maximal history length under the new style
 
 Boot == [base |-> 0, pos |-> <<>>]          \* state of a fresh process (Random_value = 43241421)
 
@@ -42,8 +44,16 @@ Profile == [
 ]
 
 (* ---------------------------------------------------------------- generator *)
+(* Generator STYLE (law_set_old_style): "old" = the congruential generator, whose state IS      *)
+(* Random_value; "new" = std::mt19937 + the std distributions: Random_value only remembers the   *)
+(* last seed given (the draws never change it), law_set_random_seed(seed > 0) stores the seed   *)
+(* AND re-seeds the Mersenne twister, unconditionally.  The term [base, pos] stands for the     *)
+(* state of the generator in use.  Under the new style a uniform and a Gaussian draw consume    *)
+(* the twister differently (generate_canonical / polar rejection): separate tokens.              *)
 SetSeed(r, s) == IF s > 0 THEN [base |-> s, pos |-> <<>>] ELSE r      \* law_set_random_seed
 Step(r, n)    == [r EXCEPT !.pos = @ \o [i \in 1..n |-> <<"u">>]]    \* n LCG steps
+Draw(r, sty, op) == IF sty = "old" THEN Step(r, IF op = "draw" THEN 1 ELSE 2)
+                    ELSE [r EXCEPT !.pos = Append(@, IF op = "draw" THEN <<"nu">> ELSE <<"ng">>)]
 
 (* ---------------------------------------------------------------- calls *)
 AllSeeds == Seeds \cup NonPos
@@ -79,29 +89,30 @@ RankStream(s, k) == [s EXCEPT !.pos = Append(@, <<"rank", ToString(k)>>)]
 Stage2(p, seed) == IF Profile[p].unit = "pgs" THEN (IF seed > 0 THEN "reseeded" ELSE "continued") ELSE "none"
 After(r, p, seed, via) == LET a == AtDraw(r, p, seed, via) IN [a EXCEPT !.pos = Append(@, <<"after", p, Stage2(p, seed)>>)]
 
-VARIABLES rng, pre, hist, out, done
-vars == <<rng, pre, hist, out, done>>
+VARIABLES rng, pre, hist, out, done, style
+vars == <<rng, pre, hist, out, done, style>>
 
 NoCall == [op |-> "none", p |-> "none", seed |-> 0, via |-> "none"]
 Init == rng = Boot /\ pre = Boot /\ hist = <<>> /\ out = [call |-> NoCall, stream |-> Boot, stage2 |-> "none"] /\ done = FALSE
+        /\ style \in Styles
 
 Do(c) ==
-  CASE c.op = "draw"    -> rng' = Step(rng, 1)
-    [] c.op = "gdraw"   -> rng' = Step(rng, 2)
+  CASE c.op = "draw"    -> rng' = Draw(rng, style, "draw")
+    [] c.op = "gdraw"   -> rng' = Draw(rng, style, "gdraw")
     [] c.op = "setseed" -> rng' = SetSeed(rng, c.seed)
     [] c.op = "sim"     -> rng' = After(rng, c.p, c.seed, IF Profile[c.p].seedArg THEN "arg" ELSE "bare")
     [] c.op = "fail"    -> \* fails before or after its reseed: both are allowed, nothing else
                            rng' \in (IF Profile[c.p].failEarly THEN {rng} ELSE {rng, SetSeed(rng, c.seed)})
 
-HistStep == /\ ~done /\ Len(hist) < MaxHist
+HistStep == /\ ~done /\ Len(hist) < (IF style = "old" THEN MaxHist ELSE MaxHistNew)
             /\ \E c \in HistCalls : Do(c) /\ hist' = Append(hist, c)
-            /\ UNCHANGED <<out, done, pre>>
+            /\ UNCHANGED <<out, done, pre, style>>
 ObsStep  == /\ ~done
             /\ \E c \in ObsCalls :
                  /\ out' = [call |-> c, stream |-> AtDraw(rng, c.p, c.seed, c.via), stage2 |-> Stage2(c.p, c.seed)]
                  /\ rng' = After(rng, c.p, c.seed, c.via)
             /\ pre' = rng
-            /\ hist' = hist
+            /\ hist' = hist /\ style' = style
             /\ done' = TRUE
 Next == HistStep \/ ObsStep
 Spec == Init /\ [][Next]_vars
